@@ -1,7 +1,7 @@
 (* C03 — Tokens are bit-exact PASETO: each backend agrees with the spec and its sibling.
    SpecTokens.v is the specification (validated on every official vector at run time);
    the theorems say model = specification for ALL inputs and nonces. *)
-From PV Require Import Bytes Result Pae Ctr Oracle Local Public LocalProofs SpecTokens SpecProofs CtrSites.
+From PV Require Import Bytes Result Pae Ctr Oracle Local Public LocalProofs SpecTokens SpecProofs CtrSites ToyOracle.
 From PV.Gen Require Import Ciphers.
 Local Open Scope string_scope.
 Local Open Scope list_scope.
@@ -100,3 +100,8 @@ Print Assumptions C03_ctr_sites_full_width.
 Print Assumptions C03_ctr_every_site_inventoried.
 Print Assumptions C03_ctr_width_agree.
 Print Assumptions C03_ctr64_refuted.
+
+(* non-vacuity: the premise [laws O] of the theorems above has a model (ToyOracle.v) *)
+Theorem C03_premises_satisfiable : exists O, laws O.
+Proof. exact laws_satisfiable. Qed.
+Print Assumptions C03_premises_satisfiable.
